@@ -16,14 +16,15 @@
 (*   Mechanism  ReaderImpl (docbuffer / pending / marker rewriting) feeds  *)
 (*              the parser; the parser attaches to an entity the doc items *)
 (*              that directly follow its statement (read_docstring); doc   *)
-(*              items elsewhere go to the enclosing container              *)
+(*              items elsewhere go to the enclosing container, whose own   *)
+(*              documentation directly follows its opening statement       *)
 (***************************************************************************)
 EXTENDS ReaderImpl
 
 CONSTANTS MaxEnts, Placements, Seps
 
-VARIABLES ents, lines, expect, nd, phase
-vars == <<ents, lines, expect, nd, phase>>
+VARIABLES ents, lines, expect, nd, phase, head
+vars == <<ents, lines, expect, nd, phase, head>>
 
 Digit(n) == CASE n = 0 -> "0" [] n = 1 -> "1" [] n = 2 -> "2" [] n = 3 -> "3" [] n = 4 -> "4" [] n = 5 -> "5"
               [] n = 6 -> "6" [] n = 7 -> "7" [] n = 8 -> "8" [] OTHER -> "9"
@@ -58,7 +59,10 @@ SepLines(s) == CASE s = "none" -> <<>> [] s = "blank" -> <<<<>>>>
                  [] s = "comment" -> <<Ind \o <<"!", " ", "c">>>>
                  [] s = "blank_comment" -> <<<<>>, Ind \o <<"!", " ", "c">>>>
 
-Init == ents = <<>> /\ lines = <<>> /\ expect = <<>> /\ nd = 0 /\ phase = "build"
+(* head: number of documentation lines that directly follow the container's own opening statement (they are the *)
+(* container's documentation and the only documentation it may receive)                                       *)
+Init == /\ head \in {0, 1} /\ ents = <<>> /\ expect = <<>> /\ phase = "build"
+        /\ lines = [j \in 1..head |-> DocLineOf(DocMark, j - 1)] /\ nd = head
 
 AddEntity(kind, p, gap, s) ==
   /\ phase = "build" /\ Len(ents) < MaxEnts
@@ -73,9 +77,9 @@ AddEntity(kind, p, gap, s) ==
                        \o (IF kind = "block" THEN <<Ind \o Closer(i)>> ELSE <<>>) \o SepLines(s)
      /\ expect' = Append(expect, [j \in 1..NDocs(p) |-> WordOf(nd + j - 1)])
      /\ nd' = nd + NDocs(p)
-  /\ UNCHANGED phase
+  /\ UNCHANGED <<phase, head>>
 
-EndBody == /\ phase = "build" /\ ents # <<>> /\ phase' = "done" /\ UNCHANGED <<ents, lines, expect, nd>>
+EndBody == /\ phase = "build" /\ ents # <<>> /\ phase' = "done" /\ UNCHANGED <<ents, lines, expect, nd, head>>
 Next == (\E k \in {"simple", "block"}, p \in Placements, g \in {"none", "blank"}, s \in Seps : AddEntity(k, p, g, s)) \/ EndBody
 Spec == Init /\ [][Next]_vars
 
@@ -104,6 +108,6 @@ Routed == LET r == FeedAll(RInit, lines, 1)
 Done == phase = "done"
 EachDocOnItsEntity == Done => /\ Routed.err = ""
                               /\ \A i \in 1..Len(ents) : Routed.att[i] = expect[i]
-NoLeakToContainer == Done => Routed.att[MaxEnts + 1] = <<>>
+NoLeakToContainer == Done => Routed.att[MaxEnts + 1] = [j \in 1..head |-> WordOf(j - 1)]
 NeverAlt == ~(Done /\ \E i \in 1..Len(ents) : ents[i].p \in {"altafter2", "altpre2"})    \* vacuity guard
 =============================================================================
